@@ -74,7 +74,9 @@ Lemma exec_eq v lim nd f :
      (seq (guard (copy_exceeded lim f) XDepth)
           (fun s => let fc := f_copy f (sum_sizes (s_locals s)) in
                     seq (guard (loop_exceeded v lim fc n) XLoop)
-                        (in_ctx (iter 1 (N.to_nat n) (fun _ => partial v lim body (f_scale v fc n)))) s))
+                        (if v_item v
+                         then iter 1 (N.to_nat n) (fun _ => in_ctx (partial v lim body (f_scale v fc n)))
+                         else in_ctx (iter 1 (N.to_nat n) (fun _ => partial v lim body (f_scale v fc n)))) s))
   | Call body =>
       seq (guard (copy_exceeded lim f) XDepth)
           (fun s => in_ctx (block v lim body (f_copy f (sum_sizes (s_locals s)))) s)
@@ -211,10 +213,15 @@ Section Preserve.
       apply P_mut. eapply (keeps_partial b IH); [| |exact H1]; auto.
     - (* RenderFor *) intros n b IH f s s' HI HP H. rewrite exec_eq in H.
       gstep H. gstep H. cbv zeta in H. gstep H.
-      apply in_ctx_ok in H. destruct H as (s1 & H1 & ->).
-      apply P_mut. eapply iter_preserves; [| |exact H1]; [|apply P_mut; exact HP].
-      intros k s3 s4 HP3 Hb. eapply (keeps_partial b IH); [|exact HP3|exact Hb].
-      apply I_scale; auto.
+      destruct (v_item v).
+      + eapply iter_preserves; [|exact HP|exact H].
+        intros k s3 s4 HP3 Hb. apply in_ctx_ok in Hb. destruct Hb as (s5 & H5 & ->).
+        apply P_mut. eapply (keeps_partial b IH); [| |exact H5]; [|apply P_mut; exact HP3].
+        apply I_scale; auto.
+      + apply in_ctx_ok in H. destruct H as (s1 & H1 & ->).
+        apply P_mut. eapply iter_preserves; [| |exact H1]; [|apply P_mut; exact HP].
+        intros k s3 s4 HP3 Hb. eapply (keeps_partial b IH); [|exact HP3|exact Hb].
+        apply I_scale; auto.
     - (* Call *) intros b IH f s s' HI HP H. rewrite exec_eq in H.
       gstep H.
       apply in_ctx_ok in H. destruct H as (s1 & H1 & ->).
@@ -241,11 +248,16 @@ Proof.
   replace (a * b * x)%N with (a * x * b)%N by lia. apply IH.
 Qed.
 
-Lemma loop_limit_repaired lim : loop_limit repaired lim = l_loop lim.
-Proof. unfold loop_limit. destruct (l_loop lim) as [[|p]|]; reflexivity. Qed.
+(* the two repairs, whichever way render-for makes its contexts *)
+Definition is_repaired (v : variant) : Prop := v_carry v = true /\ v_zero v = true.
+Lemma repaired_is_repaired : is_repaired repaired.
+Proof. split; reflexivity. Qed.
 
-Lemma ns_limit_repaired lim : ns_limit repaired lim = l_ns lim.
-Proof. unfold ns_limit. destruct (l_ns lim) as [[|p|p]|]; reflexivity. Qed.
+Lemma loop_limit_repaired v lim : is_repaired v -> loop_limit v lim = l_loop lim.
+Proof. intros [_ Hz]. unfold loop_limit. rewrite Hz. destruct (l_loop lim) as [[|p]|]; reflexivity. Qed.
+
+Lemma ns_limit_repaired v lim : is_repaired v -> ns_limit v lim = l_ns lim.
+Proof. intros [_ Hz]. unfold ns_limit. rewrite Hz. destruct (l_ns lim) as [[|p|p]|]; reflexivity. Qed.
 
 Lemma utf8_len_pos c : 1 <= utf8_len c <= 4.
 Proof. unfold utf8_len. repeat match goal with |- context [if ?b then _ else _] => destruct b end; lia. Qed.
@@ -271,35 +283,36 @@ Proof. unfold m_write. destruct (buf_write _ _ _); intro H; inversion H; subst; 
 Definition bk (f : frame) : N := fold_left N.mul (f_loops f) (f_carry f).
 
 Section LoopBound.
-  Variables (lim : limits) (L : N).
+  Variables (v : variant) (lim : limits) (L : N).
+  Hypothesis Hv : is_repaired v.
   Hypothesis HL : l_loop lim = Some L.
 
   (* the bookkeeping product IS the true product, and it is within the limit *)
   Definition linv (f : frame) : Prop := bk f = f_tp f /\ (f_tp f <= L)%N.
   Definition leafP (s : st) : Prop := Forall (fun p => (p <= L)%N) (s_leaf s).
 
-  Lemma not_exceeded f n : loop_exceeded repaired lim f n = false -> (bk f * n <= L)%N.
+  Lemma not_exceeded f n : loop_exceeded v lim f n = false -> (bk f * n <= L)%N.
   Proof.
-    unfold loop_exceeded. rewrite loop_limit_repaired, HL. intro H.
+    unfold loop_exceeded. rewrite (loop_limit_repaired v lim Hv), HL. intro H.
     replace (n * f_carry f)%N with (f_carry f * n)%N in H by lia. rewrite fold_mul_scale in H. unfold bk. lia.
   Qed.
 
-  Lemma linv_for f n : linv f -> loop_exceeded repaired lim f n = false -> linv (f_for f n).
+  Lemma linv_for f n : linv f -> loop_exceeded v lim f n = false -> linv (f_for f n).
   Proof.
     intros [Hb Ht] He. apply not_exceeded in He. unfold linv, bk, f_for; simpl.
     rewrite fold_mul_scale. fold (bk f). rewrite Hb in *. split; [reflexivity|lia].
   Qed.
 
-  Lemma linv_scale f n : linv f -> loop_exceeded repaired lim f n = false -> linv (f_scale repaired f n).
+  Lemma linv_scale f n : linv f -> loop_exceeded v lim f n = false -> linv (f_scale v f n).
   Proof.
     intros [Hb Ht] He. apply not_exceeded in He. unfold linv, bk, f_scale; simpl.
-    rewrite fold_mul_scale. fold (bk f). rewrite Hb in *. split; [reflexivity|lia].
+    destruct Hv as [Hc _]. rewrite Hc. rewrite fold_mul_scale. fold (bk f). rewrite Hb in *. split; [reflexivity|lia].
   Qed.
 
   Theorem exec_leaf_bound nd f s s' :
-    linv f -> leafP s -> exec repaired lim nd f s = LOk s' -> leafP s'.
+    linv f -> leafP s -> exec v lim nd f s = LOk s' -> leafP s'.
   Proof.
-    apply (exec_keeps repaired lim linv leafP).
+    apply (exec_keeps v lim linv leafP).
     - intros f0 [? ?]; split; auto.
     - exact linv_for.
     - exact linv_scale.
@@ -307,7 +320,7 @@ Section LoopBound.
     - intros f0 s0 s0' [_ Ht] HP H. inversion H; subst. unfold leafP; simpl. constructor; auto.
     - intros t s0 s0' HP H. apply m_write_logs in H. unfold leafP. destruct H as (-> & _). exact HP.
     - intros f0 x val s0 s0' _ HP H. unfold m_assign in H. destruct (s_sizes s0); [discriminate|].
-      destruct (ns_limit repaired lim); [destruct (_ >? _); [discriminate|]|]; inversion H; subst; exact HP.
+      destruct (ns_limit v lim); [destruct (_ >? _); [discriminate|]|]; inversion H; subst; exact HP.
     - intros s0 HP; exact HP.
     - intros s0 HP; exact HP.
     - intros s0 s1 _ HP; exact HP.
@@ -315,10 +328,10 @@ Section LoopBound.
   Qed.
 
   Theorem run_leaf_bound main sizes s :
-    (1 <= L)%N -> run_prog repaired lim main sizes = LOk s -> leafP s.
+    (1 <= L)%N -> run_prog v lim main sizes = LOk s -> leafP s.
   Proof.
     intros H1 H. unfold run_prog in H. destruct (nest_exceeded lim main); [discriminate|].
-    eapply (partial_keeps repaired lim linv leafP); [..|exact H].
+    eapply (partial_keeps v lim linv leafP); [..|exact H].
     - intros f0 [? ?]; split; auto.
     - exact linv_for.
     - exact linv_scale.
@@ -326,7 +339,7 @@ Section LoopBound.
     - intros f0 s0 s0' [_ Ht] HP H0. inversion H0; subst. unfold leafP; simpl. constructor; auto.
     - intros t s0 s0' HP H0. apply m_write_logs in H0. unfold leafP. destruct H0 as (-> & _). exact HP.
     - intros f0 x val s0 s0' _ HP H0. unfold m_assign in H0. destruct (s_sizes s0); [discriminate|].
-      destruct (ns_limit repaired lim); [destruct (_ >? _); [discriminate|]|]; inversion H0; subst; exact HP.
+      destruct (ns_limit v lim); [destruct (_ >? _); [discriminate|]|]; inversion H0; subst; exact HP.
     - intros s0 HP; exact HP.
     - intros s0 HP; exact HP.
     - intros s0 s1 _ HP; exact HP.
@@ -338,7 +351,8 @@ End LoopBound.
 
 (* ------------------------------------------------------------------ C07: namespace sizes *)
 Section NsBound.
-  Variable lim : limits.
+  Variables (v : variant) (lim : limits).
+  Hypothesis Hv : is_repaired v.
 
   (* the carried size IS the measured size of the ancestors' namespaces *)
   Definition ninv (f : frame) : Prop := f_ns_carry f = f_anc f.
@@ -347,12 +361,12 @@ Section NsBound.
 
   Lemma ns_obligations :
     (forall f, ninv f -> ninv (f_ext f)) /\
-    (forall f n, ninv f -> loop_exceeded repaired lim f n = false -> ninv (f_for f n)) /\
-    (forall f n, ninv f -> loop_exceeded repaired lim f n = false -> ninv (f_scale repaired f n)) /\
+    (forall f n, ninv f -> loop_exceeded v lim f n = false -> ninv (f_for f n)) /\
+    (forall f n, ninv f -> loop_exceeded v lim f n = false -> ninv (f_scale v f n)) /\
     (forall f z, ninv f -> ninv (f_copy f z)) /\
     (forall f s s', ninv f -> nsP s -> m_leaf (f_tp f) s = LOk s' -> nsP s') /\
     (forall t s s', nsP s -> m_write lim t s = LOk s' -> nsP s') /\
-    (forall f x val s s', ninv f -> nsP s -> m_assign repaired lim f x val s = LOk s' -> nsP s').
+    (forall f x val s s', ninv f -> nsP s -> m_assign v lim f x val s = LOk s' -> nsP s').
   Proof.
     repeat split.
     - intros f H; exact H.
@@ -362,7 +376,7 @@ Section NsBound.
     - intros f s s' _ HP H. inversion H; subst. exact HP.
     - intros t s s' HP H. apply m_write_logs in H. unfold nsP. destruct H as (_ & -> & _). exact HP.
     - intros f x val s s' HI HP H. unfold m_assign in H. destruct (s_sizes s) as [|z rest]; [discriminate|].
-      rewrite ns_limit_repaired in H. unfold ninv in HI.
+      rewrite (ns_limit_repaired v lim Hv) in H. unfold ninv in HI.
       destruct (l_ns lim) as [M|] eqn:EM.
       + destruct (_ >? _) eqn:E; [discriminate|]. inversion H; subst. unfold nsP; cbn [s_nslog]. constructor; [|exact HP].
         split; cbn [fst snd]; [lia|]. intros M' HM'. rewrite EM in HM'. inversion HM'; subst. lia.
@@ -370,11 +384,11 @@ Section NsBound.
         split; cbn [fst snd]; [lia|]. intros M' HM'. rewrite EM in HM'. discriminate.
   Qed.
 
-  Theorem run_ns_bound main sizes s : run_prog repaired lim main sizes = LOk s -> nsP s.
+  Theorem run_ns_bound main sizes s : run_prog v lim main sizes = LOk s -> nsP s.
   Proof.
     intro H. unfold run_prog in H. destruct (nest_exceeded lim main); [discriminate|].
     destruct ns_obligations as (O1 & O2 & O3 & O4 & O5 & O6 & O7).
-    eapply (partial_keeps repaired lim ninv nsP O1 O2 O3 O4 O5 O6 O7); [..|exact H].
+    eapply (partial_keeps v lim ninv nsP O1 O2 O3 O4 O5 O6 O7); [..|exact H].
     - intros s0 HP; exact HP.
     - intros s0 HP; exact HP.
     - intros s0 s1 _ HP; exact HP.
